@@ -4,7 +4,7 @@ A recipe describes one packet by template + field overrides; signatures / tags c
 mutation* so that the result passes the integrity guards and reaches the logic behind them.
 
 v2 recipe  {"t":"v2", "frame":hex, "body": "valid"|"ct"|"plain", "ct":hex, "plain":hex, "lenfield":int|None,
-            "sign":"ok"|"bad"|"none", "marker":hex, "trunc":int|None, "append":hex, "magic":hex}
+            "sign":"ok"|"bad"|"none", "marker":hex, "trunc":int|None, "append":hex, "magic":hex, "mid":hex4, "ts":hex8, "id":int, "rsv":hex12}
 rep recipe {"t":"rep", "n":int, "item":recipe, "tail":recipe|None}      (a burst of n copies)
 v3 recipe  {"t":"v3", "ptype":0..15, "inner": recipe|{"t":"raw","data":hex}, "enc":"ok"|"wrongkey"|"clear"|"ct",
             "ct":hex, "tag":"ok"|"bad"|"none", "pad":int|None, "size":int|None, "magic":int, "cnt":int, "trunc":int|None,
@@ -56,7 +56,9 @@ def _build_v2(r: dict) -> bytes:
     lf = r.get("lenfield")
     lf = total if lf is None else lf
     hdr = bytes.fromhex(r.get("marker", "5a5a")) + b"\x01\x11" + bytes([lf & 0xFF, (lf >> 8) & 0xFF]) + bytes.fromhex(r.get("magic", "2080"))
-    hdr += bytes(4) + bytes([1, 2, 3, 4, 5, 6, 24, 20]) + (r.get("id", 1)).to_bytes(8, "little") + bytes(12)
+    # message id (4), timestamp (8: 1/100 s, s, min, h, day, month, year, century), device id (8), reserved (12): all covered by
+    # the signature, none of them interpreted by a receiver that only wants the frame
+    hdr += bytes.fromhex(r.get("mid", "00000000")) + bytes.fromhex(r.get("ts", "0102030405061814")) + (r.get("id", 1) & 0xFFFFFFFFFFFFFFFF).to_bytes(8, "little") + bytes.fromhex(r.get("rsv", "00" * 12))
     pkt = hdr + ct
     sign = r.get("sign", "ok")
     if sign == "ok":
@@ -141,6 +143,8 @@ def v2_recipes():
         "t": st.just("v2"),
         "body": st.sampled_from(["valid", "valid", "ct", "ct", "plain"]),
         "sign": st.sampled_from(["ok", "ok", "ok", "bad", "none"]),
+        "ts": st.one_of(st.just("0102030405061814"), _hex(st.binary(min_size=8, max_size=8)), st.sampled_from(["000000001e021814", "00000000010118ff", "0000000001010000", "ffffffffffffffff", "6363633b171f0c63"])),
+        "mid": _hex(st.binary(min_size=4, max_size=4)), "rsv": _hex(st.binary(min_size=12, max_size=12)), "id": st.sampled_from([1, 0, 2 ** 48 - 1, 2 ** 64 - 1]),
     }, optional={
         "frame": _hex(st.binary(max_size=64)),
         "ct": _hex(ct),
